@@ -427,7 +427,23 @@ fn run_c18_net(input: RunInput) -> ScenFuture {
         let mut clients = Vec::new();
         for i in 0..n_clients {
             let c = Arc::new(w.start_node(w.spec(i as u8 + 2, cfg.clone()), Svc::echo(&w)).unwrap());
-            if c.net.connect_with_peer_id(server.addr, server.peer_id).await.is_err() {
+            // (who dialed a connection is nothing the layer may depend on: about half of the
+            // connections are established by the node that serves behind the layer)
+            let ok = if w.rng(&format!("cfg:who-dials:{i}")).gen_bool(0.5) {
+                w.probe("connection-dialed-by-the-serving-node");
+                let ok = server.net.connect_with_peer_id(c.addr, c.peer_id).await.is_ok();
+                // (the dialed side registers the connection a moment after the dialer)
+                for _ in 0..200 {
+                    if c.net.peers().contains(&server.peer_id) {
+                        break;
+                    }
+                    sleep_ms(1).await;
+                }
+                ok
+            } else {
+                c.net.connect_with_peer_id(server.addr, server.peer_id).await.is_ok()
+            };
+            if !ok {
                 w.harness_error("setup connect failed");
             }
             clients.push(c);
@@ -640,7 +656,23 @@ fn run_c19_net(input: RunInput) -> ScenFuture {
         let mut clients = Vec::new();
         for i in 0..n_clients {
             let c = Arc::new(w.start_node(w.spec(i as u8 + 2, cfg.clone()), Svc::echo(&w)).unwrap());
-            if c.net.connect_with_peer_id(server.addr, server.peer_id).await.is_err() {
+            // (who dialed a connection is nothing the layer may depend on: about half of the
+            // connections are established by the node that serves behind the layer)
+            let ok = if w.rng(&format!("cfg:who-dials:{i}")).gen_bool(0.5) {
+                w.probe("connection-dialed-by-the-serving-node");
+                let ok = server.net.connect_with_peer_id(c.addr, c.peer_id).await.is_ok();
+                // (the dialed side registers the connection a moment after the dialer)
+                for _ in 0..200 {
+                    if c.net.peers().contains(&server.peer_id) {
+                        break;
+                    }
+                    sleep_ms(1).await;
+                }
+                ok
+            } else {
+                c.net.connect_with_peer_id(server.addr, server.peer_id).await.is_ok()
+            };
+            if !ok {
                 w.harness_error("setup connect failed");
             }
             clients.push(c);
@@ -1219,7 +1251,23 @@ fn run_c20_net(input: RunInput) -> ScenFuture {
         let mut clients = Vec::new();
         for i in 0..n_clients {
             let c = Arc::new(w.start_node(w.spec(i as u8 + 2, cfg.clone()), Svc::echo(&w)).unwrap());
-            if c.net.connect_with_peer_id(server.addr, server.peer_id).await.is_err() {
+            // (who dialed a connection is nothing the layer may depend on: about half of the
+            // connections are established by the node that serves behind the layer)
+            let ok = if w.rng(&format!("cfg:who-dials:{i}")).gen_bool(0.5) {
+                w.probe("connection-dialed-by-the-serving-node");
+                let ok = server.net.connect_with_peer_id(c.addr, c.peer_id).await.is_ok();
+                // (the dialed side registers the connection a moment after the dialer)
+                for _ in 0..200 {
+                    if c.net.peers().contains(&server.peer_id) {
+                        break;
+                    }
+                    sleep_ms(1).await;
+                }
+                ok
+            } else {
+                c.net.connect_with_peer_id(server.addr, server.peer_id).await.is_ok()
+            };
+            if !ok {
                 w.harness_error("setup connect failed");
             }
             clients.push(c);
